@@ -54,6 +54,8 @@ def events():
                 ev.append(('joint', a, b, None))
     ev += [('gear', 'S1', 'S2', 0.9), ('gear', 'S2', 'S1', 0.8),
            ('worm', 'Wg', 'Ww', 0.3), ('worm', 'Wg', 'Ww', 0.1), ('worm', 'Ww', 'Wg', 0.1)]
+    # declarations that must be REJECTED (efficiency < 0; incompatible kinds): the graph and the flags stay as they were
+    ev += [('worm', 'Ww', 'Wg', 0.3, 'rejected'), ('gear', 'S1', 'Ww', 0.9, 'rejected'), ('joint', 'S1', 'M', None, 'rejected')]
     return ev
 
 
@@ -61,7 +63,17 @@ EVENTS = events()
 
 
 def apply_event(objs, e):
-    func, a, b, p = e
+    func, a, b, p = e[:4]
+    if len(e) == 5:
+        try:
+            _apply(objs, func, a, b, p)
+        except (ValueError, TypeError):
+            return
+        raise AssertionError(f'declaration {e} was expected to be rejected')
+    _apply(objs, func, a, b, p)
+
+
+def _apply(objs, func, a, b, p):
     if func == 'joint':
         add_fixed_joint(master=objs[a], slave=objs[b])
     elif func == 'gear':
@@ -73,6 +85,8 @@ def apply_event(objs, e):
 # -- reference: a dict of links ------------------------------------------------------
 def ref_apply(state, e):
     drives, flag = dict(state[0]), state[1]
+    if len(e) == 5:
+        return (drives, flag)              # rejected: nothing changes
     func, a, b, p = e
     drives[a] = b
     if func == 'worm':
@@ -205,6 +219,11 @@ def visit(acc, hist, with_extensions):
             objs = build_state(hist, 'distinct')
             inspect(acc, case, objs, st, 'distinct', extra_event=ei)
             acc.executions += 1
+            # ... and a powertrain assembled AFTER that declaration (accepted or rejected) is judged against the reference graph
+            st2 = ref_apply(st, EVENTS[ei])
+            if len(EVENTS[ei]) == 5 or canon(st2) == canon(st):
+                inspect(acc, {'kind': 'state', 'history': list(hist) + [ei], 'naming': 'distinct'}, objs, st2, 'distinct')
+                acc.executions += 1
 
 
 def bfs_levels(depth):
